@@ -102,7 +102,26 @@ def suite(patch, full):
                 ok = True
                 break
         rerun.append((binid, test, ok))
-    return {"scope": "whole workspace (BASELINE command)" if full else pk, "summary": summary, "wall_s": round(time.time() - t), "failed_first_pass_on_loaded_machine": [f"{b} {t}" for b, t in failed], "still_failing_alone": [f"{b} {t}" for b, t, ok in rerun if not ok]}
+    still = [(b, t) for b, t, ok in rerun if not ok]
+    also_on_unchanged = []
+    if still:
+        # the suite has 10 s watchdogs and CPU pinning: on a loaded machine heavy tests fail on the unchanged
+        # tree as well. A test counts against the change only if it passes on the unchanged tree right now.
+        sh(["git", "apply", "-R", patch])
+        for binid, test in still:
+            ok = False
+            for _ in range(2):
+                rc2, _ = sh(["cargo", "nextest", "run", "--offline", "--test-threads", "1", "-E", f"binary_id({binid}) & test(={test})"], timeout=1800)
+                if rc2 == 0:
+                    ok = True
+                    break
+            if not ok:
+                also_on_unchanged.append((binid, test))
+        sh(["git", "apply", patch])
+    return {"scope": "whole workspace (BASELINE command)" if full else pk, "summary": summary, "wall_s": round(time.time() - t),
+            "failed_first_pass_on_loaded_machine": [f"{b} {t}" for b, t in failed],
+            "failing_alone_with_change_but_also_on_unchanged_tree_right_now (load)": [f"{b} {t}" for b, t in also_on_unchanged],
+            "still_failing_alone": [f"{b} {t}" for b, t in still if (b, t) not in also_on_unchanged]}
 
 def main():
     if sys.argv[1] == "--cleanup":
